@@ -185,6 +185,9 @@ func runC10(res *Result, d *Driver, g *Rng, tier string) {
 					res.Violate("C10.encode-failed:"+name, "a PDU with only header fields set does not encode", rep)
 					continue
 				}
+				if cp, ok := p.(codec); ok {
+					retainEncoded(name, snapshot(cp), img) // looked at again when the run is over: the header must still say this
+				}
 				so := seqOffset(pkg)
 				if len(img) < so+4 || binary.BigEndian.Uint32(img[so:]) != seq {
 					res.Violate("C10.seq-not-at-offset:"+name, fmt.Sprintf("sequence %d is not at header offset %d of the encoded image %s", seq, so, hx(img[:min(len(img), 24)])), rep)
